@@ -132,6 +132,35 @@ func GenC10(verifSeed uint64, run int) *Scenario {
 			}
 		}
 	}
+	// key D: a subkeys-only export (gpg --export-secret-subkeys) of the unprotected key E: the
+	// primary secret key is a GNU dummy stub, only the signing subkey can
+	// sign. Detached signatures (debsign, rpm) work through the subkey;
+	// dpkg-sig clear-signs with the primary key, which cannot sign: that must
+	// fail loudly and typed, never yield a package.
+	w.Tree = append(w.Tree, TreeEntry{Path: "keys/m-pgp_d.asc", Kind: "file", KeyRef: "pgp_d.asc", Mode: 0o600, MTime: 1500000000})
+	for _, id := range []string{"", keyID("pgp_d.sub")} {
+		idd := id
+		setD := func(s map[string]any) {
+			s["key_file"] = "@SRC@keys/m-pgp_d.asc"
+			delete(s, "key_id")
+			if idd != "" {
+				s["key_id"] = idd
+			}
+			delete(s, "method")
+			delete(s, "type")
+		}
+		plan.Cases = append(plan.Cases, Case{Format: "deb", Class: "clean", Key: "pgp_d", Env: matrixEnv, Config: variant(func(m map[string]any) {
+			setD(subMap(subMap(m, "deb"), "signature"))
+		})})
+		plan.Cases = append(plan.Cases, Case{Format: "rpm", Class: "clean", Key: "pgp_d", Env: matrixEnv, Config: variant(func(m map[string]any) {
+			setD(subMap(subMap(m, "rpm"), "signature"))
+		})})
+		plan.Cases = append(plan.Cases, Case{Format: "deb", Class: "cannotsign", Invalid: "dpkg-sig-with-subkeys-only-key", Key: "pgp_d", Env: matrixEnv, Config: variant(func(m map[string]any) {
+			sg := subMap(subMap(m, "deb"), "signature")
+			setD(sg)
+			sg["method"] = "dpkg-sig"
+		})})
+	}
 	for _, rk := range []string{"rsa_a.priv", "rsa_a.pkcs8.priv", "rsa_a.enc.priv"} {
 		w.Tree = append(w.Tree, TreeEntry{Path: "keys/m-" + rk, Kind: "file", KeyRef: rk, Mode: 0o600, MTime: 1500000000})
 		rkk := rk
